@@ -237,3 +237,77 @@ Proof.
   intros Hne Hl. destruct (is_prefix _ _) eqn:E; [|reflexivity].
   apply is_prefix_same_len in E; [|exact Hl]. by apply int_to_bytes_inj in E.
 Qed.
+
+(** * Stripping a common prefix keeps order and distinctness *)
+Local Close Scope Z_scope.
+
+Lemma is_prefix_split p k : is_prefix p k = true -> k = p ++ drop (length p) k.
+Proof. intros [r ->]%is_prefix_app. by rewrite drop_app. Qed.
+
+Lemma bytes_leb_app_l p a b : bytes_leb (p ++ a) (p ++ b) = bytes_leb a b.
+Proof.
+  induction p as [|x p IH]; [reflexivity|]. cbn [app bytes_leb].
+  by rewrite N.ltb_irrefl, N.eqb_refl.
+Qed.
+
+Lemma Sorted_strip p (l : list bytes) :
+  Forall (fun k => is_prefix p k = true) l -> Sorted bytes_le l ->
+  Sorted bytes_le (map (drop (length p)) l).
+Proof.
+  intros Hf Hs. apply Sorted_StronglySorted in Hs; [|apply _].
+  apply StronglySorted_Sorted.
+  induction Hs as [|k l Hs IH Hall]; [constructor|].
+  apply Forall_cons in Hf as [Hk Hf]. cbn [map]. constructor; [by apply IH|].
+  apply Forall_forall. intros r [k' [-> Hk']]%elem_of_list_fmap.
+  rewrite Forall_forall in Hall, Hf. specialize (Hall _ Hk'). specialize (Hf _ Hk').
+  unfold bytes_le in *. rewrite (is_prefix_split _ _ Hk), (is_prefix_split _ _ Hf) in Hall.
+  by rewrite bytes_leb_app_l in Hall.
+Qed.
+
+Lemma NoDup_strip p (l : list bytes) :
+  Forall (fun k => is_prefix p k = true) l -> NoDup l -> NoDup (map (drop (length p)) l).
+Proof.
+  intros Hf Hn. apply NoDup_fmap_2_strong; [|exact Hn].
+  rewrite Forall_forall in Hf. intros x y Hx Hy He.
+  rewrite (is_prefix_split _ _ (Hf _ Hx)), (is_prefix_split _ _ (Hf _ Hy)). by rewrite He.
+Qed.
+
+Lemma Forall_sfind_prefix p s : Forall (fun k => is_prefix p k = true) (map fst (sfind p s)).
+Proof. apply Forall_forall. intros k Hk. by apply elem_of_sfind_keys in Hk as [_ ?]. Qed.
+
+(** The listing "prefix removed": pairs (rest of the key, value). *)
+Definition sfind_strip (p : bytes) (s : store) : list (bytes * bytes) :=
+  map (fun kv => (drop (length p) (fst kv), snd kv)) (sfind p s).
+
+Lemma elem_of_sfind_strip p s r v : (r, v) ∈ sfind_strip p s <-> s !! (p ++ r) = Some v.
+Proof.
+  unfold sfind_strip. rewrite elem_of_list_fmap. split.
+  - intros [[k v'] [[= -> ->] [Hv Hp]%elem_of_sfind]]. cbn [fst snd].
+    by rewrite <- (is_prefix_split _ _ Hp).
+  - intros Hv. exists (p ++ r, v). cbn [fst snd]. rewrite drop_app. split; [reflexivity|].
+    apply elem_of_sfind. split; [exact Hv|apply is_prefix_refl_app].
+Qed.
+
+Lemma sfind_strip_keys p s : map fst (sfind_strip p s) = map (drop (length p)) (map fst (sfind p s)).
+Proof. unfold sfind_strip. rewrite !map_map. reflexivity. Qed.
+
+Lemma NoDup_sfind_strip_keys p s : NoDup (map fst (sfind_strip p s)).
+Proof. rewrite sfind_strip_keys. apply NoDup_strip; [apply Forall_sfind_prefix|apply NoDup_sfind_keys]. Qed.
+
+Lemma Sorted_sfind_strip_keys p s : Sorted bytes_le (map fst (sfind_strip p s)).
+Proof. rewrite sfind_strip_keys. apply Sorted_strip; [apply Forall_sfind_prefix|apply Sorted_sfind_keys]. Qed.
+
+Lemma elem_of_sfind_strip_keys p s r : r ∈ map fst (sfind_strip p s) <-> is_Some (s !! (p ++ r)).
+Proof.
+  rewrite elem_of_list_fmap. split.
+  - intros [[r' v] [-> H]]. apply elem_of_sfind_strip in H. eauto.
+  - intros [v Hv]. exists (r, v). split; [reflexivity|by apply elem_of_sfind_strip].
+Qed.
+
+(** Key listing of a whole map, as a sorted duplicate-free list. *)
+Lemma skeys_unique {V} (m : gmap bytes V) (l : list bytes) :
+  Sorted bytes_le l -> NoDup l -> (forall k, k ∈ l <-> is_Some (m !! k)) -> l = skeys m.
+Proof.
+  intros Hs Hn He. apply sorted_keys_unique; auto using Sorted_skeys, NoDup_skeys.
+  intros k. by rewrite He, elem_of_skeys.
+Qed.
